@@ -548,6 +548,80 @@ impl Space for Dims {
     }
 }
 
+/// style objects that travel between workbooks: a cell style read back from workbook T (so it carries T's table
+/// ids) is given to a cell of workbook R, whose own tables assign the same ids to different components
+struct Transfer {
+    s1: Vec<Spec>,
+}
+impl Space for Transfer {
+    fn len(&self) -> u64 {
+        self.s1.len() as u64
+    }
+    fn describe(&self, i: u64) -> Value {
+        json!({"kind":"style-transfer","style": spec_json(&self.s1[i as usize]), "history": "T: cell with style S, save+reload; R: cells with two other custom styles, save+reload; R.B5 := T's reloaded style; save+reload R"})
+    }
+    fn tags(&self, i: u64) -> Vec<String> {
+        let mut t = spec_tags(&self.s1[i as usize]);
+        t.push("transfer-between-workbooks".into());
+        t
+    }
+    fn run(&self, i: u64, sink: &mut Sink) {
+        let tags = self.tags(i);
+        let tg: Vec<&str> = tags.iter().map(|s| s.as_str()).collect();
+        let case = self.describe(i);
+        sink.evaluations += 1;
+        // T
+        let mut t = new_file();
+        t.get_sheet_mut(&0).unwrap().get_cell_mut("C1").set_value_number(1).set_style(make_style(&self.s1[i as usize]));
+        {
+            // control cells (same convention as build_style_book): what "never set" looks like after a reload
+            let ws = t.get_sheet_mut(&0).unwrap();
+            let mut c1 = Style::default();
+            c1.get_numbering_format_mut().set_format_code("0.0000");
+            ws.get_cell_mut("A1").set_value_number(1).set_style(c1);
+            let mut c2 = Style::default();
+            c2.set_background_color("FF00FFFF");
+            ws.get_cell_mut("A2").set_value_number(2).set_style(c2);
+        }
+        // R: occupies the first custom ids of every table with OTHER components
+        let mut r = new_file();
+        {
+            let ws = r.get_sheet_mut(&0).unwrap();
+            let mut a = Style::default();
+            a.get_numbering_format_mut().set_format_code("yyyy\"-Q\"q");
+            a.get_font_mut().set_name("Courier New");
+            a.set_background_color("FF00FF00");
+            a.get_borders_mut().get_top_mut().set_border_style("double");
+            ws.get_cell_mut("A1").set_value_number(1).set_style(a);
+            let mut b = Style::default();
+            b.get_numbering_format_mut().set_format_code("0.0E+00");
+            b.get_font_mut().set_size(20.0);
+            ws.get_cell_mut("A2").set_value_number(2).set_style(b);
+        }
+        let run = || -> Result<(Value, Value), String> {
+            let (_, t2) = roundtrip(&t, false)?;
+            let (_, mut r2) = roundtrip(&r, false)?;
+            let defaults = calibrate(t2.get_sheet(&0).unwrap());
+            let st = t2.get_sheet(&0).unwrap().get_style("C1").clone();
+            let given = effective(&style_p(&st), &defaults);
+            r2.get_sheet_mut(&0).unwrap().get_cell_mut("B5").set_value_number(5).set_style(st);
+            let (_, r3) = roundtrip(&r2, false)?;
+            Ok((given, effective(&style_p(r3.get_sheet(&0).unwrap().get_style("B5")), &defaults)))
+        };
+        match run() {
+            Err(e) => sink.violations.push(Violation::new("roundtrip-succeeds", &format!("failed:{}", panic_class(&e)), &tg, case, e)),
+            Ok((given, got)) => {
+                sink.obs(&got.to_string());
+                // effective projections (a component never set == the default component of new_file workbooks)
+                if given != got {
+                    let d = first_diff(&given, &got).map(|(p, l, r)| format!("{}: given {} reloaded {}", p, l, r)).unwrap_or_default();
+                    sink.violations.push(Violation::new("style-preserved", &format!("changed-after-transfer:{}", component_symptom(&given, &got)), &tg, case, d));
+                }
+            }
+        }
+    }
+}
+
 trait AsRefStyle {
     fn as_ref_style(&self) -> &Style;
 }
@@ -575,6 +649,7 @@ pub fn space(tier: Tier, id: &str) -> Option<Box<dyn Space>> {
             Some(Box::new(AllAtOnce { sets }))
         }
         "dims" => Some(Box::new(Dims)),
+        "transfer" => Some(Box::new(Transfer { s1: sigma1() })),
         _ => None,
     }
 }
@@ -590,7 +665,7 @@ fn replay(tier: Tier, case: &Value) -> Vec<Violation> {
 }
 
 fn run(ctx: &Ctx) -> i32 {
-    let ids = ["pairs", "all-at-once", "dims"];
+    let ids = ["pairs", "all-at-once", "dims", "transfer"];
     let spaces = ids.iter().map(|id| (*id, space(ctx.tier, id).unwrap())).collect();
     run_e1(
         ctx,
@@ -598,7 +673,7 @@ fn run(ctx: &Ctx) -> i32 {
             spaces,
             cfg: PoolCfg { chunk: 16, case_timeout: std::time::Duration::from_secs(300), ..Default::default() },
             level: "exploration",
-            rule: "style alphabet = base + every single-attribute variation (sigma1) + every pair of variations (sigma2) + a separator-collision family; (pairs) every ordered pair of sigma1 in a two-cell workbook, alternating writers; (all-at-once) whole sets in one workbook in forward and reverse order, which covers every ordered (earlier, later) pair for interning merges; (dims) every assignment of 4 states to columns 1..5 and rows 1..3. Oracle: field-by-field effective style projection given == reloaded, where a never-set component equals the component shown by control cells after reload; style tables of generation 2 == generation 3 (read by the independent Python decoder). distinct_nontrivial = distinct reloaded effective projections".into(),
+            rule: "style alphabet = base + every single-attribute variation (sigma1) + every pair of variations (sigma2) + a separator-collision family; (pairs) every ordered pair of sigma1 in a two-cell workbook, alternating writers; (all-at-once) whole sets in one workbook in forward and reverse order, which covers every ordered (earlier, later) pair for interning merges; (dims) every assignment of 4 states to columns 1..5 and rows 1..3; (transfer) every sigma1 style read back from one workbook and given to a cell of another reloaded workbook whose tables use the same ids for other components. Oracle: field-by-field effective style projection given == reloaded, where a never-set component equals the component shown by control cells after reload; style tables of generation 2 == generation 3 (read by the independent Python decoder). distinct_nontrivial = distinct reloaded effective projections".into(),
             alphabets: json!({"attributes": ATTRS.iter().map(|a| format!("{}x{}", a.0, a.1)).collect::<Vec<_>>(), "sigma1": sigma1().len(), "sigma2": sigma2().len(), "collision_family": collision_family().len()}),
             bounds: json!({"all-at-once": if ctx.tier == Tier::Thorough {"sigma1 + sigma2 + collision family in one workbook"} else {"sigma1; collision family; sigma2 restricted to the seven font attributes"}}),
             exhaustive: true,
